@@ -993,7 +993,27 @@ pub fn resolve(case: &Value, corpus: &[String]) -> Input {
             Input { bytes, facts: Facts::default() }
         }
         "toks" => {
-            let toks: Vec<String> = strs(&case["toks"]).iter().map(|t| lexeme(t)).collect();
+            // badstr / badchr (DeltaBuffers.tla, BadLiteral): a literal that holds a raw control character; which one
+            // of U+0000..U+001F, U+007F is a function of the case (every one of them occurs over the emitted cases)
+            let names = strs(&case["toks"]);
+            let salt: usize = names.iter().map(|t| t.len()).sum::<usize>() + names.len();
+            let toks: Vec<String> = names
+                .iter()
+                .enumerate()
+                .map(|(k, t)| {
+                    let n = (salt * 7 + k * 13) % 33;
+                    let c = if n == 32 { 0x7f as char } else { n as u8 as char };
+                    match t.as_str() {
+                        "badstr" => match (salt + k) % 3 {
+                            0 => format!("\"a{c}b\""),
+                            1 => format!("\"{c}\""),
+                            _ => format!("\"ab{c}\""),
+                        },
+                        "badchr" => format!("'{c}'"),
+                        _ => lexeme(t),
+                    }
+                })
+                .collect();
             let (pre, post) = context(case["ctx"].as_str().unwrap_or("top"));
             let mut s = String::from(pre);
             s.push_str(&toks.join(" "));
